@@ -3899,7 +3899,7 @@ size_t ZBUFFv05_decompressContinue(ZBUFFv05_DCtx* zbc, void* dst, size_t* maxDst
         case ZBUFFv05ds_decodeHeader:
                 /* apply header to create / resize buffers */
                 {
-                    size_t neededOutSize = (size_t)1 << zbc->params.windowLog;
+                    size_t neededOutSize = ((size_t)1 << zbc->params.windowLog) + BLOCKSIZE + WILDCOPY_OVERLENGTH * 2;   /* window + room for the block being written, as v0.6 and v0.7 */
                     size_t neededInSize = BLOCKSIZE;   /* a block is never > BLOCKSIZE */
                     if (zbc->inBuffSize < neededInSize) {
                         free(zbc->inBuff);
